@@ -72,7 +72,7 @@ def _split_commas(s):
 KEEP_DERIVES = ("Clone", "Copy", "PartialEq", "Eq")
 
 
-def normalise(item, features, log):
+def normalise(item, features, log, extra_keep=()):
     """N1-N3 on an extracted item. Line structure is preserved (removed text leaves its newlines),
     so line k of the result is line item.line_start + k of the source file."""
     text = item.text
@@ -130,7 +130,7 @@ def normalise(item, features, log):
         elif name == "derive":
             inner = attr_inner[attr_inner.index("(") + 1:attr_inner.rindex(")")]
             ds = [d.strip() for d in inner.split(",") if d.strip()]
-            kept = [d for d in ds if d.split("::")[-1] in KEEP_DERIVES]
+            kept = [d for d in ds if d.split("::")[-1] in KEEP_DERIVES or d.split("::")[-1] in extra_keep]
             repl[i] = ("#[derive(%s)]" % ", ".join(kept)) if kept else ""
             for q in range(i, end):
                 keep[q] = False
@@ -352,6 +352,8 @@ def desugar(text, rules, counts):
             text, c = _r_enum(text)
         elif r == "R-EXTMAP":
             text, c = _r_extmap(text)
+        elif r == "R-MAPITER":
+            text, c = _r_mapiter(text)
         elif r in ("R-QCLOSURE", "R-UNDERSCORE"):
             text, c = _r_qclosure(text)
         else:
@@ -514,6 +516,34 @@ def _r_extmap(text):
             raise SpliceError("R-EXTMAP: extend not a statement")
         new = "for %s in %s { %s.push(%s); }" % (mm.group(1), recv, mt.group(1), expr)
         text = text[:mt.start()] + new + text[e + 1:]
+        m = mask(text)
+        n += 1
+    return text, n
+
+
+def _r_mapiter(text):
+    """`for (K, V) in M.into_iter() { B }` over a HashMap ->
+         let mut vx_m = M; loop { match vx_pop_any(&mut vx_m) { Some((K, V)) => { B } None => break, } }
+    vx_pop_any (trusted) removes and returns an ARBITRARY entry, which models every iteration order. B has no continue/break."""
+    m = mask(text)
+    n = 0
+    while True:
+        mt = re.search(r"\bfor\s*\(\s*(\w+)\s*,\s*(\w+)\s*\)\s*in\s+", m)
+        if not mt:
+            break
+        o = find_top_level(m, mt.end(), len(m), "{")
+        hdr = text[mt.end():o].rstrip()
+        if not hdr.endswith(".into_iter()"):
+            break
+        recv = hdr[:-len(".into_iter()")]
+        c = match_close(m, o)
+        if re.search(r"\b(continue|break)\b", m[o + 1:c]):
+            raise SpliceError("R-MAPITER: body contains continue/break")
+        body = "{ /*@vx:mapiter.arm_start@*/" + text[o + 1:c] + "/*@vx:mapiter.arm_end@*/ }"
+        k, v = mt.group(1), mt.group(2)
+        new = ("let mut vx_m = %s;\n            loop {\n                match vx_pop_any(&mut vx_m) {\n                    Some((%s, %s)) => %s\n"
+               "                    None => break,\n                }\n            }" % (recv, k, v, body))
+        text = text[:mt.start()] + new + text[c + 1:]
         m = mask(text)
         n += 1
     return text, n
